@@ -92,6 +92,13 @@ Section LoopsKeep.
   Variable rec : recfn.
   Hypothesis Hrec : rec_keeps rec.
 
+  Lemma and_loop_keeps : forall kids st f t last, keeps st (fst (and_loop rec st f t kids last)).
+  Proof.
+    induction kids as [|k r IH]; intros st f t last; cbn [and_loop]; [apply keeps_refl|].
+    pose proof (Hrec st f t k) as H. destruct (rec st f t k) as [st1 [v|e]]; cbn in H; [|exact H].
+    eapply keeps_trans; [exact H|apply IH].
+  Qed.
+
   Lemma nest_loop_keeps sid : forall kids st f t, keeps st (fst (nest_loop rec sid st f t kids)).
   Proof.
     induction kids as [|k r IH]; intros st f t; cbn [nest_loop]; [apply keeps_refl|].
@@ -168,7 +175,7 @@ Proof.
                                let st5 := if f_nopy (get st4 p) then nopy_walk (List.length st4) st4 p e else st4 in
                                (st5, Exc e) end))).
   { intros st2 r Hk. eapply keeps_trans; [exact H1|]. eapply keeps_trans; [exact Hk|]. apply except_keeps. }
-  destruct s as [n ok|n|n kids|n steps|n bs|n bs|n cs|n ok kid|n bs|n kid].
+  destruct s as [n ok|n|n kids|n steps|n bs|n bs|n cs|n ok kid|n bs|n kid|n kids].
   - destruct ok; [apply (Hbody st1 (Ret (2000 + n)) (keeps_refl st1)) | apply (Hbody st1 (Exc n) (keeps_refl st1))].
   - apply (Hbody st1 (Ret 0) (keeps_refl st1)).
   - pose proof (nest_loop_keeps (glom_ fuel) IH n kids st1 (List.length st) t) as H.
@@ -190,6 +197,8 @@ Proof.
   - pose proof (IH st1 (List.length st) t kid) as H.
     destruct (glom_ fuel st1 (List.length st) t kid) as [st2 [v|e]]; cbn [fst] in H;
       [apply (Hbody st2 (Exc (6000 + n)) H)|apply (Hbody st2 (Ret t) H)].
+  - pose proof (and_loop_keeps (glom_ fuel) IH kids st1 (List.length st) t t) as H.
+    destruct (and_loop (glom_ fuel) st1 (List.length st) t kids t) as [st2 r]. apply Hbody. exact H.
 Qed.
 
 (* the frame an evaluation creates names its spec occurrence, the target it was called with and the frame it was called from —
@@ -218,7 +227,7 @@ Proof.
                                  let st5 := if f_nopy (get st4 p) then nopy_walk (List.length st4) st4 p e else st4 in
                                  (st5, Exc e) end))).
     { intros st2 r Hk2. eapply keeps_trans; [exact Hk2|]. apply except_keeps. }
-    destruct s as [n ok|n|n kids|n steps|n bs|n bs|n cs|n ok kid|n bs|n kid].
+    destruct s as [n ok|n|n kids|n steps|n bs|n bs|n cs|n ok kid|n bs|n kid|n kids].
     - destruct ok; [apply (Hbody st1 (Ret (2000 + n)) (keeps_refl st1)) | apply (Hbody st1 (Exc n) (keeps_refl st1))].
     - apply (Hbody st1 (Ret 0) (keeps_refl st1)).
     - pose proof (nest_loop_keeps (glom_ fuel) (glom_keeps fuel) n kids st1 (List.length st) t) as H.
@@ -239,7 +248,9 @@ Proof.
         [apply (Hbody st2 (Ret v) H)|apply (Hbody st2 (Ret (3000 + n)) H)].
     - pose proof (glom_keeps fuel st1 (List.length st) t kid) as H.
       destruct (glom_ fuel st1 (List.length st) t kid) as [st2 [v|e]]; cbn [fst] in H;
-        [apply (Hbody st2 (Exc (6000 + n)) H)|apply (Hbody st2 (Ret t) H)]. }
+        [apply (Hbody st2 (Exc (6000 + n)) H)|apply (Hbody st2 (Ret t) H)].
+    - pose proof (and_loop_keeps (glom_ fuel) (glom_keeps fuel) kids st1 (List.length st) t t) as H.
+      destruct (and_loop (glom_ fuel) st1 (List.length st) t kids t) as [st2 r]. apply Hbody. exact H. }
   destruct Hk as [Hk1 Hk2]. split; [lia|]. split.
   - rewrite Hk2 by lia. exact Hid.
   - intros i Hi. rewrite Hk2 by lia. unfold st1. rewrite get_upd.
